@@ -1,6 +1,6 @@
 import Driver.Util
 import Sqfs.Model.Path
-import Sqfs.Model.HardLink
+import Sqfs.Spec.HardLink
 namespace Driver.C07
 open Sqfs.HardLink
 
@@ -71,9 +71,29 @@ def hlStep (cur : Option Nat) (toks : List String) : String :=
       | .outOfFuel => "spin"
       | .badIndex => "bad-index"
 
+/-- monitor: the *specification's* verdict per hard link, most recently created first:
+`<linkpath>=F:<targetpath>:<o|d>` (ends at a non-link), `D:<errno>` (dangling), `C` (cyclic) -/
+def hlSpec (toks : List String) : String :=
+  match toks.mapM parseEnt with
+  | none => "bad-op"
+  | some ents =>
+    match buildTree Tree.init 0 ents with
+    | .error s => s
+    | .ok t =>
+      let g := Tree.toGraph t
+      let one (n : Nat) : String :=
+        toHexTok (Tree.pathOf t t.length n) ++ "=" ++
+        (match specClass g n with
+         | .endsAt tg => "F:" ++ toHexTok (Tree.pathOf t t.length tg) ++ ":" ++ (if g[tg]? = some .dir then "d" else "o")
+         | .dangling e => "D:" ++ errnoStr e.toErrno
+         | .cyclic => "C"
+         | .escapes => "X")
+      "spec" ++ String.join ((Tree.links t).map (fun n => " " ++ one n))
+
 def step (line : String) : String :=
   match words line with
   | "hl" :: toks => hlStep none toks
+  | "hlspec" :: toks => hlSpec toks
   | "hlcur" :: f :: toks => match f.toNat? with
       | some fuel => hlStep (some fuel) toks
       | none => "bad-op"
